@@ -58,9 +58,70 @@ for crate in sorted(os.listdir(repo)):
                     vals.add(a + b)
                 elif op == "-" and a >= b:
                     vals.add(a - b)
+# ---- byte-string dictionary: string / byte-string / byte literals and arrays of byte-valued
+# integers, for the generators to splice into documents (a change that special-cases a magic
+# prefix or token - a byte order mark, a new keyword - is then exercised with that very token)
+def unescape(body):
+    out, i = bytearray(), 0
+    while i < len(body):
+        c = body[i]
+        if c == "\\" and i + 1 < len(body):
+            n = body[i + 1]
+            if n == "x" and i + 3 < len(body):
+                try:
+                    out.append(int(body[i + 2:i + 4], 16)); i += 4; continue
+                except ValueError:
+                    pass
+            m = {"n": 10, "r": 13, "t": 9, "0": 0, "\\": 92, "'": 39, '"': 34}.get(n)
+            if m is not None:
+                out.append(m); i += 2; continue
+            if n == "u":
+                j = body.find("}", i)
+                try:
+                    out += chr(int(body[i + 3:j], 16)).encode("utf-8"); i = j + 1; continue
+                except (ValueError, OverflowError):
+                    pass
+        out += c.encode("utf-8")
+        i += 1
+    return bytes(out)
+
+
+def strip_for_literals(src):
+    src = re.sub(r"//[^\n]*", "", src)
+    src = re.sub(r"/\*.*?\*/", "", src, flags=re.S)
+    i = src.find("#[cfg(test)]")
+    return src if i < 0 else src[:i]
+
+
+lits = set()
+for crate in sorted(os.listdir(repo)):
+    d = os.path.join(repo, crate, "src")
+    if not os.path.isdir(d):
+        continue
+    for root, _, files in os.walk(d):
+        for f in sorted(files):
+            if not f.endswith(".rs"):
+                continue
+            s = strip_for_literals(open(os.path.join(root, f), encoding="utf-8", errors="replace").read())
+            for m in re.finditer(r'b?"((?:\\.|[^"\\])*)"', s):
+                lits.add(unescape(m.group(1)))
+            for m in re.finditer(r"b?'((?:\\.|[^'\\])+)'", s):
+                lits.add(unescape(m.group(1)))
+            for m in re.finditer(r"\[((?:\s*(?:0x[0-9a-fA-F]{1,2}|[0-9]{1,3})(?:_?u8)?\s*,)+\s*(?:0x[0-9a-fA-F]{1,2}|[0-9]{1,3})(?:_?u8)?\s*,?\s*)\]", s):
+                try:
+                    bs = [int(x.strip().replace("_u8", "").replace("u8", ""), 0) for x in m.group(1).split(",") if x.strip()]
+                    if all(0 <= b < 256 for b in bs):
+                        lits.add(bytes(bs))
+                except ValueError:
+                    pass
+lit_out = os.path.join(os.path.dirname(out), "literals.txt")
+lit_text = "".join(b.hex() + "\n" for b in sorted(lits) if 1 <= len(b) <= 16)
+if not os.path.exists(lit_out) or open(lit_out).read() != lit_text:
+    open(lit_out, "w").write(lit_text)
+
 keep = sorted(v for v in vals if 0 <= v < (1 << 64))
 text = "".join(f"{v}\n" for v in keep)
 old = open(out).read() if os.path.exists(out) else None
 if old != text:
     open(out, "w").write(text)
-print(f"{len(keep)} integer constants from {repo} -> {out}" + ("" if old == text else " (changed)"))
+print(f"{len(keep)} integer constants, {lit_text.count(chr(10))} byte-string literals from {repo} -> {out}, {lit_out}" + ("" if old == text else " (changed)"))
